@@ -160,3 +160,38 @@ fn c18_delete_is_atomic() {
         kani::cover!(DEL_ENV_BUDGET < 2, "cover.delete.interfered");
     }
 }
+
+
+/// thorough tier: the traversal contract on a registry of <= 4 entries
+#[kani::proof]
+#[kani::unwind(7)]
+fn c18_iter_sequential_4() {
+    unsafe {
+        let list = core::mem::ManuallyDrop::new(List::<E, EH>::new());
+        let es = [mk(0), mk(1), mk(2), mk(3)];
+        kani::assume((&es[0].entry as *const Entry as usize) & 7 == 0);
+        let del = [kani::any::<bool>(), kani::any::<bool>(), kani::any::<bool>(), kani::any::<bool>()];
+        link_raw(&*list, &[&es[0].entry, &es[1].entry, &es[2].entry, &es[3].entry], &del);
+        let g = core::mem::ManuallyDrop::new(unprotected());
+        let mut visited = [9u8; 5];
+        let mut nv = 0;
+        let mut it = list.iter(&g);
+        let mut steps = 0;
+        while steps < 5 {
+            match it.next() {
+                None => break,
+                Some(Ok(e)) => { visited[nv] = e.id; nv += 1; }
+                Some(Err(IterError::Stalled)) => { assert!(false, "C18.iter4.no_stall_without_concurrent_modification"); }
+            }
+            steps += 1;
+        }
+        let mut expect = [9u8; 5];
+        let mut ne = 0;
+        let mut i = 0;
+        while i < 4 { if !del[i] { expect[ne] = i as u8; ne += 1; } i += 1; }
+        assert!(nv == ne && visited == expect, "C18.iter4.visits_every_registered_unremoved_entry_once");
+        i = 0;
+        while i < 4 { assert!(FINALIZED[i] == del[i] as u32, "C18.iter4.removed_entries_unlinked_and_finalized_exactly_once"); i += 1; }
+        kani::cover!(del[0] && del[1] && del[2] && !del[3], "cover.iter4.three_leading_removed");
+    }
+}
